@@ -7,13 +7,15 @@
  *     "if every nested call obeys contract K, the real body - run on ALL LEN-byte inputs - is memory safe, calls itself
  *      only on spans inside the buffer (K's precondition), terminates, and its own result obeys K".
  * K (success): *ret_data is a fresh node, type 0..3, raw span inside the given span, for strings val.s == raw;
- *     1 <= *ret_buf_off <= buf_size, strings: < buf_size.   K (failure): non-zero result, *ret_data == NULL.
+ *     2 <= *ret_buf_off <= buf_size, strings: < buf_size.   K (failure): non-zero result, *ret_data == NULL.
  * Depth 0 (strings, integers) makes no nested call, so K holds for every depth.  Counterexamples are replayed against the
  * real recursive function (REPLAY includes the unmodified bt_encode.c); one that needs stub values the real function
  * cannot produce does not reproduce and is reported as UNCONFIRMED, never as a violation.
  *
  * KF_BT_END_READ: known finding - after the last item of a list / dict the decoder tests *cur_pos for 'e' although
  *   cur_pos may equal buf + buf_size ("li1e").  Blocking clause: one more readable byte that is not 'e'.
+ * KF_BT_LEN_WRAP: known finding - the string length test "buf_max <= raw_size + ptm" is done by pointer addition, which
+ *   wraps for lengths near SIZE_MAX ("18446744073709551615:") and then accepts the string.
  * KF_BT_DICT_KEY: known finding - a dictionary whose key is not a string ("di1e..") leaves the loop with error == 0 and
  *   returns success with raw_size = (size_t)-1.  Blocking clause: raw span of dictionaries not checked. */
 #include "verif.h"
@@ -37,6 +39,9 @@ int bt_en_decode_top(uint8_t *buf, size_t buf_size, bt_en_node_p *ret_data, size
 static const uint8_t *g_src;
 static size_t g_calls;
 int bt_en_decode(uint8_t *buf, size_t buf_size, bt_en_node_p *ret_data, size_t *ret_buf_off) {
+#ifdef DIRECT	/* no contract: nested calls run the real body again (direct recursion, depth bounded through MAXCONT) */
+	return (bt_en_decode_top(buf, buf_size, ret_data, ret_buf_off));
+#endif
 	V_ASSERT(buf >= g_src && buf <= g_src + LEN && buf_size <= (size_t)((g_src + LEN) - buf),
 	    "nested call: span inside the caller's buffer (precondition of K)");
 	V_ASSERT(ret_data != NULL, "nested call: result pointer given");
@@ -48,8 +53,27 @@ int bt_en_decode(uint8_t *buf, size_t buf_size, bt_en_node_p *ret_data, size_t *
 	if (!IN.sub[k].ok) return (EBADMSG);
 	uint8_t type = (IN.sub[k].type & 3);
 	size_t off = IN.sub[k].off, ro = IN.sub[k].raw_off, rs = IN.sub[k].raw_size;
-	V_ASSUME(off >= 1 && off <= buf_size && (type != BT_EN_TYPE_STR || off < buf_size));
-	V_ASSUME(ro <= off && rs <= off - ro);
+	V_ASSUME(off >= 2 && off <= buf_size && (type != BT_EN_TYPE_STR || off < buf_size));
+	V_ASSUME(ro >= 1 && ro <= off && rs <= off - ro);
+	/* Conditions on the bytes that are NECESSARY for the real function to succeed with this result (they only remove
+	 * stub behaviours the real code cannot show, so K stays an over-approximation; they make counterexamples replayable):
+	 * 'i': integer, ends at the first 'e';  digit: string, "<digits>:" then exactly <value of digits> bytes;
+	 * 'l' / 'd': list / dict whose last consumed byte is 'e';  anything else fails. */
+	uint8_t c0 = buf[0];
+	if (c0 == 'i') {
+		V_ASSUME(type == BT_EN_TYPE_NUM && buf[off - 1] == 'e' && ro == 1 && rs == off - 2);
+		for (size_t j = 1; j + 1 < off; j++) V_ASSUME(buf[j] != 'e');
+	} else if (c0 >= '0' && c0 <= '9') {
+		V_ASSUME(type == BT_EN_TYPE_STR && ro >= 2 && buf[ro - 1] == ':' && off == ro + rs);
+		for (size_t j = 1; j + 1 < ro; j++) V_ASSUME(buf[j] != ':');
+		V_ASSUME(rs == ustr2usize(buf, ro - 1));
+	} else if (c0 == 'l') {
+		V_ASSUME(type == BT_EN_TYPE_LIST && buf[off - 1] == 'e' && ro == 1);
+	} else if (c0 == 'd') {
+		V_ASSUME(type == BT_EN_TYPE_DICT && buf[off - 1] == 'e' && ro == 1);
+	} else {
+		return (EBADMSG);
+	}
 	bt_en_node_p n = bt_en_alloc(type, buf + ro, rs);
 	if (type == BT_EN_TYPE_STR) n->val.s = buf + ro;
 	n->val_count = (type <= BT_EN_TYPE_NUM) ? 1 : 0;	/* nested containers: empty (their content is their own level's business) */
@@ -80,6 +104,33 @@ void harness(void) {
 #ifndef REPLAY
 	g_src = src;
 #endif
+#ifdef MAXCONT	/* shape: at most MAXCONT bytes are 'l' or 'd' => nesting depth <= MAXCONT + 1 (recursion bound for DIRECT) */
+	{
+		size_t nc = 0;
+		for (size_t i = 0; i < LEN; i++) nc += (src[i] == 'l' || src[i] == 'd');
+		V_ASSUME(nc <= MAXCONT);
+	}
+#endif
+#ifdef DIGIT0	/* shape: the input starts with a digit (byte string "<len>:<data>"); lets LEN reach the 20 digits of SIZE_MAX */
+	V_ASSUME(LEN > 0 && src[0] >= '0' && src[0] <= '9');
+#endif
+#ifdef NEARMAX	/* shape: "<digits>:" fills all but the last byte and the length is within 2^32 of SIZE_MAX, where the pointer
+		 * addition in the length test wraps on every real address space (CBMC's own pointers wrap at 2^52 already) */
+	V_ASSUME(LEN >= 3 && src[LEN - 2] == ':');
+	for (size_t i = 1; i + 2 < LEN; i++) V_ASSUME(src[i] != ':');
+	{	/* leading digits fixed to those of 2^64 (SAT does not invert a 20-step multiply-by-ten chain in minutes), last six free */
+		static const char pfx[] = "18446744073709";
+		for (size_t i = 0; i < sizeof(pfx) - 1 && i + 2 < LEN; i++) V_ASSUME(src[i] == (uint8_t)pfx[i]);
+	}
+	V_ASSUME(ustr2usize(src, LEN - 2) >= 0xffffffff00000000ull);
+#endif
+#ifdef KF_BT_LEN_WRAP	/* known finding: "buf_max <= raw_size + ptm" wraps for a 20-digit length. Blocking: < 20 digits before ':' */
+	{
+		size_t nd = 0, i = 0;
+		for (; i < LEN && src[i] != ':'; i++) nd += (src[i] >= '0' && src[i] <= '9');
+		V_ASSUME(nd < 20);
+	}
+#endif
 	bt_en_node_p node = NULL, found = NULL;
 	size_t off = 777;
 	int r = bt_en_decode_top(src, LEN, &node, (IN.ktype & 0x80) ? NULL : &off);
@@ -95,9 +146,10 @@ void harness(void) {
 	}
 	chk_node(node, src);
 	if (!(IN.ktype & 0x80)) {
-		V_ASSERT(off >= 1 && off <= LEN, "K: consumed size inside the buffer");
+		V_ASSERT(off >= 2 && off <= LEN, "K: consumed size at least two and inside the buffer");
 		if (node->type == BT_EN_TYPE_STR) V_ASSERT(off < LEN, "K: a string never ends the buffer");
 	}
+#if FN == 2	/* walk, search and free the decoded tree (costly in CBMC: union of pointers read through symbolic node types) */
 	if (node->type == BT_EN_TYPE_LIST) {
 		V_ASSERT(node->val.l != NULL && node->val_count >= 1, "list: items present");
 		for (size_t i = 0; i < node->val_count; i++) chk_node(node->val.l[i], src);
@@ -116,4 +168,7 @@ void harness(void) {
 	if (node->type == BT_EN_TYPE_NUM) V_WITNESS("bt num");
 	bt_en_free(node);
 	V_WITNESS("bt freed");
+#else
+	V_WITNESS("bt decoded");
+#endif
 }
